@@ -101,4 +101,54 @@ theorem loops_get (c : Comp) (n : Nat) (ps : List Particle) (i : Nat) (hi : i < 
   rw [key _ _ h0, antFold_eq]
   simp [AntAcc.empty]
 
+/-! ### identity layer -/
+theorem alloc_wf (h : Heap) (hw : h.WF) : h.alloc.WF ∧ h.next < h.alloc.next ∧
+    (∃ l, h.alloc.ids = h.ids ++ l ∧ ∀ x ∈ l, h.next ≤ x) := by
+  obtain ⟨hn, hl⟩ := hw
+  refine ⟨⟨?_, ?_⟩, by simp [Heap.alloc], ⟨[h.next], rfl, by simp⟩⟩
+  · simp only [Heap.alloc]
+    rw [List.nodup_append]
+    refine ⟨hn, by simp, ?_⟩
+    intro a ha b hb
+    simp only [List.mem_singleton] at hb
+    subst hb
+    exact Nat.ne_of_lt (hl a ha)
+  · intro x hx
+    simp only [Heap.alloc, List.mem_append, List.mem_singleton] at hx ⊢
+    rcases hx with hx | hx
+    · exact Nat.lt_succ_of_lt (hl x hx)
+    · omega
+
+/-- the relation "h' extends h by objects that are all new": well-formed, later, old ids kept as a prefix -/
+def Ext (h h' : Heap) : Prop :=
+  h'.WF ∧ h.next ≤ h'.next ∧ ∃ l, h'.ids = h.ids ++ l ∧ ∀ x ∈ l, h.next ≤ x
+
+theorem ext_refl (h : Heap) (hw : h.WF) : Ext h h := ⟨hw, Nat.le_refl _, [], by simp, by simp⟩
+
+theorem ext_alloc (h h' : Heap) (he : Ext h h') : Ext h h'.alloc := by
+  obtain ⟨hw, hle, l, hl, hge⟩ := he
+  obtain ⟨hw', hlt, l', hl', hge'⟩ := alloc_wf h' hw
+  refine ⟨hw', by omega, l ++ l', by rw [hl', hl, List.append_assoc], ?_⟩
+  intro x hx
+  rcases List.mem_append.1 hx with hx | hx
+  · exact hge x hx
+  · have := hge' x hx; omega
+
+theorem ext_allocN (n : Nat) (h h' : Heap) (he : Ext h h') : Ext h (allocN n h') := by
+  induction n generalizing h' with
+  | zero => exact he
+  | succ n ih => exact ih _ (ext_alloc h h' he)
+
+theorem ext_paths (cuts : List Bool) (h h' : Heap) (he : Ext h h') :
+    Ext h (cuts.foldl allocPath h') := by
+  induction cuts generalizing h' with
+  | nil => exact he
+  | cons c r ih =>
+    apply ih
+    unfold allocPath
+    split
+    · exact ext_alloc h _ (ext_alloc h h' he)
+    · exact ext_alloc h h' he
+
+
 end Kern
